@@ -1273,7 +1273,12 @@ func (c *Ctx) binop(st *State, in *ssa.BinOp, x, y Value) Value {
 			return BvUle(b, a)
 		}
 		fail("int binop %v", in.Op)
+	case symString:
+		return c.symStringBinop(in.Op, a.vals, strVals(y))
 	case string:
+		if ys, ok := y.(symString); ok {
+			return c.symStringBinop(in.Op, strVals(a), ys.vals)
+		}
 		b, ok := y.(string)
 		if !ok {
 			fail("string binop with %T", y)
@@ -1849,4 +1854,41 @@ func sortedKeys(m map[string]int) []string {
 	}
 	sort.Strings(ks)
 	return ks
+}
+
+func strVals(v Value) []Value {
+	switch x := v.(type) {
+	case string:
+		out := make([]Value, len(x))
+		for i := 0; i < len(x); i++ {
+			out[i] = BVU(uint64(x[i]), 8)
+		}
+		return out
+	case symString:
+		return x.vals
+	}
+	fail("string operand %T", v)
+	return nil
+}
+
+func (c *Ctx) symStringBinop(op token.Token, a, b []Value) Value {
+	switch op {
+	case token.ADD:
+		return symString{vals: append(append([]Value(nil), a...), b...)}
+	case token.EQL, token.NEQ:
+		eq := TrueT
+		if len(a) != len(b) {
+			eq = FalseT
+		} else {
+			for i := range a {
+				eq = And(eq, Eq(termOf(a[i]), termOf(b[i])))
+			}
+		}
+		if op == token.NEQ {
+			return Not(eq)
+		}
+		return eq
+	}
+	fail("string binop %v on symbolic strings", op)
+	return nil
 }
